@@ -651,6 +651,9 @@ structure ADX where
   plus_di : M
   minus_di : M
   ma2 : M
+  /-- running maximum of the absolute inputs of the final average (its scale: with overshooting kinds `+DI + −DI` can
+      cancel to rounding residue and the quotient fed to the average is then huge) -/
+  mag : Rat := 1
 
 namespace ADX
 def init (P : Nat) (m1 m2 : MA) (period1 : Nat) (zone : Rat) (k : Candle Rat) : Res ADX :=
@@ -658,7 +661,7 @@ def init (P : Nat) (m1 m2 : MA) (period1 : Nat) (zone : Rat) (k : Candle Rat) : 
       period1 ≥ 1 && period1 < m1.period && period1 < m2.period then
     (Res.ofExcept (Window.new P period1 k)).bind fun w => (m1.init P (k.trClose k.close)).bind fun t =>
     (m1.init P (0 : Rat)).bind fun p => (m1.init P (0 : Rat)).bind fun n => (m2.init P (0 : Rat)).bind fun a =>
-      .ok { zone := zone, window := w, prev_close := k.close, tr_ma := t, plus_di := p, minus_di := n, ma2 := a }
+      .ok { zone := zone, window := w, prev_close := k.close, tr_ma := t, plus_di := p, minus_di := n, ma2 := a, mag := 1 }
   else .err .wrongConfig
 
 /-- `f`: the implementation's `[adx, plus, minus]`; the ADX stage is fed its `plus`/`minus`.
@@ -670,7 +673,7 @@ def vals (s : ADX) (k : Candle Rat) (f : Option (List Rat)) : Except Panic (List
   if tr == 0 then
     -- early return of `dir_mov`: neither `prev_close` nor the directional averages are updated
     let (adx, a) ← maNext s.ma2 0
-    pure ([.unit adx (2 * maK s.ma2), .exact 0, .exact 0], { s with window := w, tr_ma := tm, ma2 := a }, true)
+    pure ([.approx adx (2 * maK s.ma2) (.abs s.mag), .exact 0, .exact 0], { s with window := w, tr_ma := tm, ma2 := a }, true)
   else
     let du := k.high - prev.high
     let dd := prev.low - k.low
@@ -686,8 +689,9 @@ def vals (s : ADX) (k : Candle Rat) (f : Option (List Rat)) : Except Panic (List
     let t := if sm == 0 then 0 else rabs (fp - fm) / sm
     let (adx, a) ← maNext s.ma2 t
     let κ := maK s.tr_ma
-    pure ([.unit adx (2 * maK s.ma2), .quot pv tr κ κ .price [] none, .quot mv tr κ κ .price [] none],
-      { s with window := w, prev_close := k.close, tr_ma := tm, plus_di := p, minus_di := n, ma2 := a }, false)
+    let mag := rmax s.mag (rabs t)
+    pure ([.approx adx (2 * maK s.ma2) (.abs mag), .quot pv tr κ κ .price [] none, .quot mv tr κ κ .price [] none],
+      { s with window := w, prev_close := k.close, tr_ma := tm, plus_di := p, minus_di := n, ma2 := a, mag := mag }, false)
 
 /-- first component: exact argument of the proportional signal `plus − minus` -/
 def sigs (s : ADX) (v : List Rat) : Action × Rat :=
